@@ -18,10 +18,11 @@ RULE = ("blueprints of 1-6 segments with 0-3 absolute markers per marker channel
 
 def case(g, tier, ci):
     r = g.r
-    seqx = r.random() < 0.10
+    seqx = r.random() < 0.10 or ci % 12 == 1
     SR = g.sr([1, 7, 100, 2.4, 1e3, 12345.678, 1e6, 1e9, 30])
     if seqx:
-        ops, info = g.blueprint("b", SR=SR, nseg=(1, 4), kinds=("ramp",), waits=0.0, markers=True, total=r.randint(2400, 2500))
+        T = r.randint(2400, 2500)
+        ops, info = g.blueprint("b", SR=SR, nseg=(1, 4), kinds=("ramp",), waits=0.0, markers=True, total=T)
     else:
         ops, info = g.blueprint("b", SR=SR, nseg=(1, 6), kinds=("ramp", "sine", "user"), waits=0.15, markers=True, nmax=25)
     names = canonical_names([basename(o["name"]["s"]) if o.get("name") else
@@ -30,6 +31,18 @@ def case(g, tier, ci):
     # user function `lin2` etc. have names ending in digits: the default name is the stripped one
     ops += g.seg_marker_ops("b", names, info)
     ops += [{"op": "el.new", "id": "e"}, {"op": "el.addBP", "id": "e", "ch": 1, "bp": "b"}, {"op": "el.getArrays", "id": "e", "time": False}]
+    if seqx and ci % 3 == 1:
+        # two channels with their own marker windows, two positions whose elements were filled in different channel orders:
+        # every channel's marker arrays in the SEQX package are ITS windows at every position (seeded C03-m18)
+        b2ops, _ = g.blueprint("b2", SR=SR, nseg=(1, 3), kinds=("ramp",), waits=0.0, markers=True, total=T)
+        ops += b2ops
+        ops += [{"op": "el.addBP", "id": "e", "ch": 2, "bp": "b2"},
+                {"op": "el.new", "id": "e2"}, {"op": "el.addBP", "id": "e2", "ch": 2, "bp": "b2"}, {"op": "el.addBP", "id": "e2", "ch": 1, "bp": "b"},
+                {"op": "sq.new", "id": "s"}, {"op": "sq.setSR", "id": "s", "v": enc(SR)}, {"op": "sq.addElement", "id": "s", "pos": 1, "el": "e"},
+                {"op": "sq.addElement", "id": "s", "pos": 2, "el": "e2"},
+                {"op": "sq.setAmp", "id": "s", "ch": 1, "v": 100}, {"op": "sq.setAmp", "id": "s", "ch": 2, "v": 100},
+                {"op": "sq.forge", "id": "s", "delays": True, "filters": False, "time": False}, {"op": "sq.seqx", "id": "s"}]
+        return ops
     if seqx:
         ops += [{"op": "sq.new", "id": "s"}, {"op": "sq.setSR", "id": "s", "v": enc(SR)}, {"op": "sq.addElement", "id": "s", "pos": 1, "el": "e"},
                 {"op": "sq.setAmp", "id": "s", "ch": 1, "v": 100}, {"op": "sq.seqx", "id": "s"}]
